@@ -1,7 +1,868 @@
-//! C25 — not implemented yet.
-use vmon::report::Args;
+//! C25 — file format round trip.
+//!
+//! Random Arrow schemas (depth <= 4; `arrgen`) and data are written with the real
+//! `lance_file::writer::FileWriter` (format 2.0 / 2.1 / 2.2, random page / cache sizes, compression
+//! field metadata) to an in-memory object store and read back with `lance_file::reader::FileReader`
+//! through a real `ScanScheduler`: full read, sub-range, RangeTo/RangeFrom, sorted non-overlapping
+//! multi-ranges, strictly increasing index lists, random projections (top-level and nested), random
+//! batch sizes. Oracle: logical Arrow equality cell by cell (`vmon::table::cell_at`, which ignores
+//! physical layout: offsets width, dictionary vs plain, views), `num_rows`, schema (names, types,
+//! nullability). Data the writer or the schema conversion refuses is a rejected input.
 
-pub fn run(_args: &Args) -> i32 {
-    eprintln!("HARNESS-ERROR C25 not implemented");
-    2
+use arrow_array::{Array, ArrayRef, RecordBatch, UInt32Array};
+use arrow_schema::{DataType, Field, Schema as ArrowSchema};
+use futures::{FutureExt, TryStreamExt};
+use lance_core::cache::LanceCache;
+use lance_core::datatypes::Schema as LanceSchema;
+use lance_encoding::decoder::{DecoderConfig, DecoderPlugins, FilterExpression};
+use lance_encoding::version::LanceFileVersion;
+use lance_file::reader::{FileReader, FileReaderOptions, ReaderProjection};
+use lance_file::writer::{FileWriter, FileWriterOptions};
+use lance_io::object_store::ObjectStore;
+use lance_io::scheduler::{ScanScheduler, SchedulerConfig};
+use lance_io::utils::CachedFileSize;
+use lance_io::ReadBatchParams;
+use object_store::path::Path;
+use serde_json::{json, Value};
+use std::panic::AssertUnwindSafe;
+use std::sync::{Arc, Mutex};
+use std::time::Duration;
+use vmon::prng::{fnv, Rng};
+use vmon::report::{Args, Report};
+use vmon::table::{cell_at, Cell};
+
+use crate::arrgen::{gen_array, gen_field, type_names, GenCfg};
+
+const RULE: &str = "Case = seeded schema (1-4 top-level columns, nesting depth <= 4 over primitive / temporal / decimal / \
+string / binary / fixed-size binary / dictionary / list / large list / fixed-size list / struct / packed struct / blob, \
+nulls at every level, sliced and empty batches) x writer options (format 2.0/2.1/2.2, data_cache_bytes, max_page_bytes, \
+compression metadata) x 8-12 reads (full, range, range-to/from, multi-ranges, sorted indices, projections, batch sizes). \
+Non-trivial iff the writer accepted the data, the file has >= 2 rows and a nested / variable-width / dictionary column; \
+distinct by (version, type tree, row-count class, options class).";
+
+static LAST_PANIC: Mutex<Option<String>> = Mutex::new(None);
+
+fn version_name(v: LanceFileVersion) -> &'static str {
+    match v {
+        LanceFileVersion::V2_0 => "2.0",
+        LanceFileVersion::V2_1 => "2.1",
+        LanceFileVersion::V2_2 => "2.2",
+        LanceFileVersion::Legacy => "0.1",
+        _ => "other",
+    }
+}
+
+struct FileCase {
+    version: LanceFileVersion,
+    schema: Arc<ArrowSchema>,
+    batches: Vec<RecordBatch>,
+    options_desc: Value,
+    data_cache_bytes: Option<u64>,
+    max_page_bytes: Option<u64>,
+    keep_original_array: Option<bool>,
+}
+
+fn gen_case(rng: &mut Rng) -> FileCase {
+    let version = *rng.pick(&[
+        LanceFileVersion::V2_0,
+        LanceFileVersion::V2_1,
+        LanceFileVersion::V2_1,
+        LanceFileVersion::V2_2,
+    ]);
+    let v21 = version >= LanceFileVersion::V2_1;
+    let cfg = GenCfg {
+        max_depth: 3,
+        struct_nulls: v21,
+        nested_fsl: v21 && rng.chance(1, 2),
+        packed_struct: rng.chance(1, 2),
+        blob: rng.chance(1, 3),
+        views: rng.chance(1, 10),
+        compression_meta: rng.chance(1, 2),
+        large_values: rng.chance(1, 4),
+    };
+    let ncols = rng.urange(1, 4);
+    let depth = *rng.pick(&[0usize, 1, 1, 2, 2, 3]);
+    let fields: Vec<Field> = (0..ncols)
+        .map(|i| gen_field(rng, &format!("c{i}"), depth, &cfg, true))
+        .collect();
+    let schema = Arc::new(ArrowSchema::new(fields));
+    let total = match rng.below(12) {
+        0 => 0,
+        1 => 1,
+        2..=6 => rng.urange(2, 60),
+        7..=10 => rng.urange(60, 500),
+        _ => rng.urange(500, 3000),
+    };
+    // batch boundaries
+    let mut batches = vec![];
+    let mut left = total;
+    let mut guard = 0;
+    while (left > 0 || (batches.is_empty() && rng.chance(1, 2))) && guard < 64 {
+        guard += 1;
+        let n = if rng.chance(1, 10) { 0 } else { rng.urange(1, left.max(1)).min(left) };
+        let n = if guard == 63 { left } else { n };
+        let sliced = rng.chance(1, 4);
+        let (pre, post) = if sliced { (rng.urange(1, 4), rng.urange(0, 3)) } else { (0, 0) };
+        let cols: Vec<ArrayRef> = schema
+            .fields()
+            .iter()
+            .map(|f| gen_array(rng, f, pre + n + post, &cfg))
+            .collect();
+        let b = RecordBatch::try_new(schema.clone(), cols).expect("generated batch");
+        batches.push(if sliced { b.slice(pre, n) } else { b });
+        left -= n;
+    }
+    let data_cache_bytes = *rng.pick(&[None, None, Some(1u64), Some(1000), Some(64 * 1024)]);
+    let max_page_bytes = *rng.pick(&[None, None, Some(64u64), Some(1024), Some(64 * 1024)]);
+    let keep_original_array = *rng.pick(&[None, Some(true), Some(false)]);
+    FileCase {
+        version,
+        options_desc: json!({"format_version": version_name(version), "data_cache_bytes": data_cache_bytes,
+            "max_page_bytes": max_page_bytes, "keep_original_array": keep_original_array}),
+        schema,
+        batches,
+        data_cache_bytes,
+        max_page_bytes,
+        keep_original_array,
+    }
+}
+
+fn schema_desc(s: &ArrowSchema) -> Vec<String> {
+    s.fields()
+        .iter()
+        .map(|f| {
+            let meta: Vec<String> = f.metadata().iter().map(|(k, v)| format!("{k}={v}")).collect();
+            format!(
+                "{}: {}{}{}",
+                f.name(),
+                f.data_type(),
+                if f.is_nullable() { "?" } else { "" },
+                if meta.is_empty() { String::new() } else { format!(" [{}]", meta.join(",")) }
+            )
+        })
+        .collect()
+}
+
+fn expected_columns(batches: &[RecordBatch], ncols: usize) -> Vec<Vec<Cell>> {
+    let mut cols: Vec<Vec<Cell>> = vec![vec![]; ncols];
+    for b in batches {
+        for (c, col) in cols.iter_mut().enumerate() {
+            let a = b.column(c);
+            for i in 0..b.num_rows() {
+                col.push(cell_at(a.as_ref(), i));
+            }
+        }
+    }
+    cols
+}
+
+/// names / types / nullability, recursively; metadata and dictionary-ness of the physical type ignored
+fn same_type(a: &DataType, b: &DataType) -> bool {
+    use DataType::*;
+    match (a, b) {
+        (List(x), List(y)) | (LargeList(x), LargeList(y)) => same_field(x, y),
+        (FixedSizeList(x, n), FixedSizeList(y, m)) => n == m && same_field(x, y),
+        (Struct(x), Struct(y)) => x.len() == y.len() && x.iter().zip(y.iter()).all(|(p, q)| same_field(p, q)),
+        _ => a == b,
+    }
+}
+fn same_field(a: &Field, b: &Field) -> bool {
+    a.name() == b.name() && a.is_nullable() == b.is_nullable() && same_type(a.data_type(), b.data_type())
+}
+
+/// path to the first differing sub-cell, e.g. "list/struct.f1/validity"
+fn diff_path(e: &Cell, g: &Cell) -> String {
+    match (e, g) {
+        (Cell::Null, Cell::Null) => "same".into(),
+        (Cell::Null, _) => "expected-null-got-value".into(),
+        (_, Cell::Null) => "expected-value-got-null".into(),
+        (Cell::List(a), Cell::List(b)) => {
+            if a.len() != b.len() {
+                return "list-length".into();
+            }
+            for (x, y) in a.iter().zip(b.iter()) {
+                if x != y {
+                    return format!("list/{}", diff_path(x, y));
+                }
+            }
+            "same".into()
+        }
+        (Cell::Struct(a), Cell::Struct(b)) => {
+            if a.len() != b.len() {
+                return "struct-arity".into();
+            }
+            for ((ka, x), (_, y)) in a.iter().zip(b.iter()) {
+                if x != y {
+                    let _ = ka;
+                    return format!("struct/{}", diff_path(x, y));
+                }
+            }
+            "same".into()
+        }
+        (a, b) if std::mem::discriminant(a) != std::mem::discriminant(b) => "cell-kind".into(),
+        _ => "value".into(),
+    }
+}
+
+fn type_class(dt: &DataType, f: &Field) -> String {
+    let mut v = vec![];
+    let ff = Field::new("x", dt.clone(), true).with_metadata(f.metadata().clone());
+    type_names(&ff, &mut v);
+    v.join("/")
+}
+
+#[derive(Clone, Debug)]
+enum ReadKind {
+    Full,
+    Range(usize, usize),
+    RangeTo(usize),
+    RangeFrom(usize),
+    Ranges(Vec<(u64, u64)>),
+    Indices(Vec<u32>),
+}
+
+impl ReadKind {
+    fn name(&self) -> &'static str {
+        match self {
+            ReadKind::Full => "full",
+            ReadKind::Range(..) => "range",
+            ReadKind::RangeTo(_) => "range_to",
+            ReadKind::RangeFrom(_) => "range_from",
+            ReadKind::Ranges(_) => "ranges",
+            ReadKind::Indices(_) => "indices",
+        }
+    }
+    fn rows(&self, n: usize) -> Vec<usize> {
+        match self {
+            ReadKind::Full => (0..n).collect(),
+            ReadKind::Range(a, b) => (*a..*b).collect(),
+            ReadKind::RangeTo(b) => (0..*b).collect(),
+            ReadKind::RangeFrom(a) => (*a..n).collect(),
+            ReadKind::Ranges(rs) => rs.iter().flat_map(|(a, b)| (*a as usize)..(*b as usize)).collect(),
+            ReadKind::Indices(ix) => ix.iter().map(|i| *i as usize).collect(),
+        }
+    }
+    fn params(&self) -> ReadBatchParams {
+        match self {
+            ReadKind::Full => ReadBatchParams::RangeFull,
+            ReadKind::Range(a, b) => ReadBatchParams::Range(*a..*b),
+            ReadKind::RangeTo(b) => ReadBatchParams::RangeTo(..*b),
+            ReadKind::RangeFrom(a) => ReadBatchParams::RangeFrom(*a..),
+            ReadKind::Ranges(rs) => ReadBatchParams::Ranges(rs.iter().map(|(a, b)| *a..*b).collect::<Vec<_>>().into()),
+            ReadKind::Indices(ix) => ReadBatchParams::Indices(UInt32Array::from(ix.clone())),
+        }
+    }
+}
+
+fn gen_read(rng: &mut Rng, n: usize, k: usize) -> ReadKind {
+    if n == 0 {
+        return ReadKind::Full;
+    }
+    match if k == 0 { 0 } else { rng.below(9) } {
+        0 => ReadKind::Full,
+        1 | 2 => {
+            let a = rng.usize_below(n);
+            let b = rng.urange(a + 1, n);
+            ReadKind::Range(a, b)
+        }
+        3 => ReadKind::RangeTo(rng.urange(1, n)),
+        4 => ReadKind::RangeFrom(rng.usize_below(n)),
+        5 | 6 => {
+            let mut v = vec![];
+            let mut pos = 0usize;
+            let m = rng.urange(1, 6);
+            for _ in 0..m {
+                if pos >= n {
+                    break;
+                }
+                let a = pos + if rng.chance(1, 3) { 0 } else { rng.usize_below((n - pos).min(40).max(1)) };
+                if a >= n {
+                    break;
+                }
+                let span = rng.usize_below(50);
+                let b = rng.urange(a + 1, (a + 1 + span).min(n));
+                v.push((a as u64, b as u64));
+                pos = b;
+            }
+            if v.is_empty() {
+                v.push((0, 1));
+            }
+            ReadKind::Ranges(v)
+        }
+        _ => {
+            let want = rng.urange(1, n.min(40));
+            let mut ix: Vec<u32> = rng.sample_indices(n, want).into_iter().map(|i| i as u32).collect();
+            ix.sort();
+            if rng.chance(1, 4) {
+                // a dense run inside
+                let s = rng.usize_below(n) as u32;
+                for d in 0..5u32 {
+                    if ((s + d) as usize) < n {
+                        ix.push(s + d);
+                    }
+                }
+                ix.sort();
+                ix.dedup();
+            }
+            ReadKind::Indices(ix)
+        }
+    }
+}
+
+/// nested projections: a path is a list of child indices starting at a top-level column
+fn leaf_paths(f: &Field, prefix: &str, out: &mut Vec<String>) {
+    let packed = f.metadata().get("packed").is_some() || f.metadata().get("lance-encoding:packed").is_some();
+    if let DataType::Struct(fs) = f.data_type() {
+        if !packed && !fs.is_empty() {
+            for c in fs {
+                leaf_paths(c, &format!("{prefix}.{}", c.name()), out);
+            }
+            return;
+        }
+    }
+    out.push(prefix.to_string());
+}
+
+fn project_cell(cell: &Cell, path: &[&str]) -> Cell {
+    // keep only the struct child named path[0] (recursively); struct nulls stay nulls
+    if path.is_empty() {
+        return cell.clone();
+    }
+    match cell {
+        Cell::Null => Cell::Null,
+        Cell::Struct(kids) => {
+            let (k, v) = kids.iter().find(|(k, _)| k == path[0]).expect("projected child");
+            Cell::Struct(vec![(k.clone(), project_cell(v, &path[1..]))])
+        }
+        other => other.clone(),
+    }
+}
+
+struct Ctx<'a> {
+    report: &'a Report,
+    seed: u64,
+    idx: u64,
+}
+
+async fn run_case(ctx: &Ctx<'_>, rng: &mut Rng, selftest: bool) {
+    let report = ctx.report;
+    let c = gen_case(rng);
+    let n_total: usize = c.batches.iter().map(|b| b.num_rows()).sum();
+    let base_witness = json!({"seed": ctx.seed as i64, "case": ctx.idx, "schema": schema_desc(&c.schema),
+        "batch_rows": c.batches.iter().map(|b| b.num_rows()).collect::<Vec<_>>(), "options": c.options_desc});
+    let lance_schema = match LanceSchema::try_from(c.schema.as_ref()) {
+        Ok(s) => s,
+        Err(e) => {
+            report.rejected();
+            report.count("rejected.schema_conversion", 1);
+            note_reject(report, "schema", &e.to_string());
+            report.case(None);
+            return;
+        }
+    };
+    let store = Arc::new(ObjectStore::memory());
+    let path = Path::from("f.lance");
+    // ---- write
+    let write = async {
+        let ow = store.create(&path).await?;
+        let mut w = FileWriter::try_new(
+            ow,
+            lance_schema.clone(),
+            FileWriterOptions {
+                data_cache_bytes: c.data_cache_bytes,
+                max_page_bytes: c.max_page_bytes,
+                keep_original_array: c.keep_original_array,
+                encoding_strategy: None,
+                format_version: Some(c.version),
+            },
+        )?;
+        for b in &c.batches {
+            w.write_batch(b).await?;
+        }
+        let mapping: std::collections::BTreeMap<u32, u32> = w.field_id_to_column_indices().iter().copied().collect();
+        let rows = w.finish().await?;
+        lance_core::Result::Ok((rows, mapping))
+    };
+    let wres = tokio::time::timeout(Duration::from_secs(180), AssertUnwindSafe(write).catch_unwind()).await;
+    let written = match wres {
+        Err(_) => {
+            report.inconclusive(&format!("C25 case {}: writer did not finish in 180 s", ctx.idx));
+            report.case(None);
+            return;
+        }
+        Ok(Err(_p)) => {
+            let loc = LAST_PANIC.lock().unwrap().clone().unwrap_or_default();
+            let mut w = base_witness.clone();
+            w["panic"] = json!(loc);
+            report.violation(
+                &format!("panic-in-writer-{}-at-{}", version_name(c.version), short_loc(&loc)),
+                &format!("file writer panicked: {loc}"),
+                w,
+            );
+            report.case(None);
+            return;
+        }
+        Ok(Ok(Err(e))) => {
+            report.rejected();
+            report.count(&format!("rejected.writer.{}", version_name(c.version)), 1);
+            note_reject(report, version_name(c.version), &e.to_string());
+            report.case(None);
+            return;
+        }
+        Ok(Ok(Ok(x))) => x,
+    };
+    let (written, mapping) = written;
+    // accepted
+    let mut tn = vec![];
+    for f in c.schema.fields() {
+        type_names(f, &mut tn);
+    }
+    for t in &tn {
+        report.count(&format!("type.{t}"), 1);
+    }
+    report.count(&format!("files.{}", version_name(c.version)), 1);
+    report.count("rows_written", n_total as u64);
+    if written as usize != n_total {
+        let mut w = base_witness.clone();
+        w["finish_returned"] = json!(written);
+        report.violation(
+            &format!("finish-row-count-{}", version_name(c.version)),
+            &format!("finish() returned {written}, {n_total} rows were written"),
+            w,
+        );
+    }
+    let expected = expected_columns(&c.batches, c.schema.fields().len());
+    // ---- open
+    let sched = ScanScheduler::new(store.clone(), SchedulerConfig::default_for_testing());
+    let cache = LanceCache::with_capacity(8 * 1024 * 1024);
+    let ropts = FileReaderOptions {
+        decoder_config: DecoderConfig {
+            cache_repetition_index: rng.bool(),
+            validate_on_decode: rng.bool(),
+        },
+        read_chunk_size: *rng.pick(&[64u64, 4096, 8 * 1024 * 1024]),
+    };
+    let open = async {
+        let fs = sched.open_file(&path, &CachedFileSize::unknown()).await?;
+        FileReader::try_open(fs, None, Arc::<DecoderPlugins>::default(), &cache, ropts.clone()).await
+    };
+    let reader = match tokio::time::timeout(Duration::from_secs(180), AssertUnwindSafe(open).catch_unwind()).await {
+        Err(_) => {
+            report.inconclusive(&format!("C25 case {}: open did not finish in 180 s", ctx.idx));
+            report.case(None);
+            return;
+        }
+        Ok(Err(_)) => {
+            let loc = LAST_PANIC.lock().unwrap().clone().unwrap_or_default();
+            let mut w = base_witness.clone();
+            w["panic"] = json!(loc);
+            report.violation(
+                &format!("panic-opening-written-file-{}-at-{}", version_name(c.version), short_loc(&loc)),
+                &format!("FileReader::try_open panicked on a file the writer produced: {loc}"),
+                w,
+            );
+            report.case(None);
+            return;
+        }
+        Ok(Ok(Err(e))) => {
+            let mut w = base_witness.clone();
+            w["error"] = json!(e.to_string());
+            report.violation(
+                &format!("cannot-open-written-file-{}", version_name(c.version)),
+                &format!("FileReader::try_open failed on a file the writer produced: {e}"),
+                w,
+            );
+            report.case(None);
+            return;
+        }
+        Ok(Ok(Ok(r))) => r,
+    };
+    if reader.num_rows() as usize != n_total {
+        let mut w = base_witness.clone();
+        w["num_rows"] = json!(reader.num_rows());
+        report.violation(
+            &format!("num-rows-{}", version_name(c.version)),
+            &format!("reader.num_rows() = {}, written {n_total}", reader.num_rows()),
+            w,
+        );
+    }
+    let file_arrow = ArrowSchema::from(reader.schema().as_ref());
+    let schema_ok = file_arrow.fields().len() == c.schema.fields().len()
+        && file_arrow.fields().iter().zip(c.schema.fields().iter()).all(|(a, b)| same_field(a, b));
+    if !schema_ok {
+        let mut w = base_witness.clone();
+        w["file_schema"] = json!(schema_desc(&file_arrow));
+        report.violation(
+            &format!("schema-differs-{}", version_name(c.version)),
+            "schema stored in the file differs from the written schema (names / types / nullability)",
+            w,
+        );
+    }
+    // ---- reads
+    let n_reads = if n_total == 0 { 2 } else { rng.urange(8, 12) };
+    let mut paths = vec![];
+    for f in c.schema.fields() {
+        leaf_paths(f, f.name(), &mut paths);
+    }
+    let mut cells_compared = 0u64;
+    for k in 0..n_reads {
+        let kind = gen_read(rng, n_total, k);
+        let batch_size = *rng.pick(&[1u32, 2, 7, 32, 100, 1024, 8192]);
+        let readahead = *rng.pick(&[1u32, 2, 16]);
+        // projection: all columns, or a random subset of top-level columns / nested leaves
+        let proj_names: Option<Vec<String>> = if k < 2 || rng.chance(1, 2) {
+            None
+        } else {
+            let mut sel: Vec<String> = vec![];
+            if rng.bool() {
+                for f in c.schema.fields() {
+                    if rng.bool() {
+                        sel.push(f.name().clone());
+                    }
+                }
+            } else {
+                // nested leaves, at most one per top-level column, in schema order
+                let mut seen_top = std::collections::BTreeSet::new();
+                for p in &paths {
+                    let top = p.split('.').next().unwrap().to_string();
+                    if !seen_top.contains(&top) && rng.chance(1, 2) {
+                        seen_top.insert(top);
+                        sel.push(p.clone());
+                    }
+                }
+            }
+            if sel.is_empty() {
+                sel.push(c.schema.field(rng.usize_below(c.schema.fields().len())).name().clone());
+            }
+            Some(sel)
+        };
+        let projection = match &proj_names {
+            None => ReaderProjection::from_whole_schema(reader.schema(), c.version),
+            Some(names) => {
+                let refs: Vec<&str> = names.iter().map(|s| s.as_str()).collect();
+                // the documented way: project the file schema and map field ids to column indices with
+                // the mapping the writer reported
+                let projected = match reader.schema().project(&refs) {
+                    Ok(p) => p,
+                    Err(e) => {
+                        report.count("projection_rejected", 1);
+                        note_reject(report, "projection", &e.to_string());
+                        continue;
+                    }
+                };
+                let by_ids = match ReaderProjection::from_field_ids(c.version, &projected, &mapping) {
+                    Ok(p) => p,
+                    Err(e) => {
+                        report.count("projection_rejected", 1);
+                        note_reject(report, "projection", &e.to_string());
+                        continue;
+                    }
+                };
+                // the name based helper must agree with it
+                if let Ok(by_names) = ReaderProjection::from_column_names(c.version, reader.schema(), &refs) {
+                    report.count("projection_helpers_compared", 1);
+                    if by_names.column_indices != by_ids.column_indices && !selftest {
+                        let has_packed = tn.iter().any(|t| t == "packed_struct");
+                        let has_blob = tn.iter().any(|t| t.starts_with("blob"));
+                        let mut w = base_witness.clone();
+                        w["projection"] = json!(names);
+                        w["from_column_names"] = json!(by_names.column_indices);
+                        w["from_field_ids_with_writer_mapping"] = json!(by_ids.column_indices);
+                        report.violation(
+                            &format!(
+                                "from-column-names-wrong-column-indices-{}{}",
+                                if c.version >= LanceFileVersion::V2_1 { "2.1+" } else { "2.0" },
+                                if has_packed { "-packed-struct" } else if has_blob { "-blob" } else { "" }
+                            ),
+                            "ReaderProjection::from_column_names disagrees with the writer's field-id -> column mapping",
+                            w,
+                        );
+                    }
+                }
+                by_ids
+            }
+        };
+        let read_desc = json!({"kind": kind.name(), "params": format!("{}", kind.params()), "batch_size": batch_size,
+            "readahead": readahead, "projection": proj_names, "reader_options": format!("{ropts:?}")});
+        let read = async {
+            let s = reader.read_stream_projected(kind.params(), batch_size, readahead, projection, FilterExpression::no_filter())?;
+            s.try_collect::<Vec<RecordBatch>>().await
+        };
+        let got = match tokio::time::timeout(Duration::from_secs(180), AssertUnwindSafe(read).catch_unwind()).await {
+            Err(_) => {
+                report.inconclusive(&format!("C25 case {} read {k}: no result in 180 s", ctx.idx));
+                continue;
+            }
+            Ok(Err(_)) => {
+                let loc = LAST_PANIC.lock().unwrap().clone().unwrap_or_default();
+                let mut w = base_witness.clone();
+                w["read"] = read_desc;
+                w["panic"] = json!(loc);
+                report.violation(
+                    &format!("panic-in-reader-{}-{}-at-{}", version_name(c.version), kind.name(), short_loc(&loc)),
+                    &format!("read panicked: {loc}"),
+                    w,
+                );
+                continue;
+            }
+            Ok(Ok(Err(e))) => {
+                let mut w = base_witness.clone();
+                w["read"] = read_desc;
+                w["error"] = json!(e.to_string());
+                let msg: String = e.to_string().chars().filter(|c| !c.is_ascii_digit()).take(60).collect();
+                report.violation(
+                    &format!("read-error-{}-{}-{}", version_name(c.version), kind.name(), slug(&msg)),
+                    &format!("reading a written file failed: {e}"),
+                    w,
+                );
+                continue;
+            }
+            Ok(Ok(Ok(b))) => b,
+        };
+        report.count(&format!("reads.{}", kind.name()), 1);
+        if proj_names.is_some() {
+            report.count("reads.projected", 1);
+        }
+        // expected rows for this read
+        let rows = kind.rows(n_total);
+        let exp_cols: Vec<(String, Vec<Cell>, usize)> = match &proj_names {
+            None => c
+                .schema
+                .fields()
+                .iter()
+                .enumerate()
+                .map(|(ci, f)| (f.name().clone(), rows.iter().map(|r| expected[ci][*r].clone()).collect(), ci))
+                .collect(),
+            Some(names) => names
+                .iter()
+                .map(|p| {
+                    let parts: Vec<&str> = p.split('.').collect();
+                    let ci = c.schema.index_of(parts[0]).unwrap();
+                    (
+                        p.clone(),
+                        rows.iter().map(|r| project_cell(&expected[ci][*r], &parts[1..])).collect(),
+                        ci,
+                    )
+                })
+                .collect(),
+        };
+        // observed
+        let mut got_cols: Vec<Vec<Cell>> = vec![vec![]; exp_cols.len()];
+        let mut bad_batch = None;
+        let mut got = got;
+        if selftest && !got.is_empty() && got.iter().map(|b| b.num_rows()).sum::<usize>() >= 2 {
+            // damage the observation: drop the first row of the first non-empty batch
+            if let Some(i) = got.iter().position(|b| b.num_rows() >= 1) {
+                let b = got[i].clone();
+                got[i] = b.slice(1, b.num_rows() - 1);
+                report.count("selftest_corrupted", 1);
+            }
+        }
+        for b in &got {
+            if b.num_rows() > batch_size as usize {
+                bad_batch = Some(b.num_rows());
+            }
+            if b.num_columns() != exp_cols.len() {
+                bad_batch = Some(usize::MAX);
+                break;
+            }
+            for (ci, col) in got_cols.iter_mut().enumerate() {
+                let a = b.column(ci);
+                for i in 0..b.num_rows() {
+                    col.push(cell_at(a.as_ref(), i));
+                }
+            }
+        }
+        let mut flagged = false;
+        let vname = version_name(c.version);
+        if let Some(nr) = bad_batch {
+            flagged = true;
+            if !selftest {
+                let mut w = base_witness.clone();
+                w["read"] = read_desc.clone();
+                report.violation(
+                    &format!("batch-shape-{vname}-{}", kind.name()),
+                    &format!("a batch has {nr} rows / wrong column count (batch_size {batch_size}, {} columns expected)", exp_cols.len()),
+                    w,
+                );
+            }
+        }
+        for (ci, (name, exp, top)) in exp_cols.iter().enumerate() {
+            let g = &got_cols[ci];
+            cells_compared += g.len() as u64;
+            let f = c.schema.field(*top);
+            let tclass = type_class(f.data_type(), f);
+            if g.len() != exp.len() {
+                flagged = true;
+                if !selftest {
+                    let mut w = base_witness.clone();
+                    w["read"] = read_desc.clone();
+                    w["column"] = json!(name);
+                    report.violation(
+                        &format!("row-count-{vname}-{}-{}", kind.name(), tclass),
+                        &format!("column {name}: read returned {} rows, expected {}", g.len(), exp.len()),
+                        w,
+                    );
+                }
+                break;
+            }
+            if let Some(r) = (0..exp.len()).find(|r| exp[*r] != g[*r]) {
+                flagged = true;
+                if !selftest {
+                    let dp = diff_path(&exp[r], &g[r]);
+                    let mut w = base_witness.clone();
+                    w["read"] = read_desc.clone();
+                    w["column"] = json!(name);
+                    w["row_in_result"] = json!(r);
+                    w["row_in_file"] = json!(rows[r]);
+                    w["expected"] = json!(exp[r].render().chars().take(400).collect::<String>());
+                    w["observed"] = json!(g[r].render().chars().take(400).collect::<String>());
+                    w["mismatching_rows"] = json!((0..exp.len()).filter(|r| exp[*r] != g[*r]).count());
+                    report.violation(
+                        &format!("cell-differs-{vname}-{}-{}-{}", kind.name(), tclass, dp),
+                        &format!(
+                            "column {name} row {} (file row {}): expected {} got {}",
+                            r,
+                            rows[r],
+                            exp[r].render().chars().take(120).collect::<String>(),
+                            g[r].render().chars().take(120).collect::<String>()
+                        ),
+                        w,
+                    );
+                }
+                break;
+            }
+        }
+        if selftest && report.counter("selftest_corrupted") > report.counter("selftest_seen") {
+            report.count("selftest_seen", 1);
+            report.count(if flagged { "selftest_flagged" } else { "selftest_missed" }, 1);
+        }
+    }
+    report.count("cells_compared", cells_compared);
+    let interesting = tn.iter().any(|t| {
+        t.contains("list") || t.contains("struct") || t.contains("utf8") || t.contains("binary") || t.contains("dictionary") || t.contains("blob")
+    });
+    let nontrivial = n_total >= 2 && interesting;
+    let rows_class = match n_total {
+        0 => 0,
+        1 => 1,
+        2..=59 => 2,
+        60..=499 => 3,
+        _ => 4,
+    };
+    let sig = fnv(
+        format!(
+            "{}|{}|{rows_class}|{:?}|{:?}",
+            version_name(c.version),
+            tn.join(","),
+            c.data_cache_bytes,
+            c.max_page_bytes
+        )
+        .as_bytes(),
+    );
+    report.case(if nontrivial { Some(sig) } else { None });
+    if report.want_sample() && nontrivial && tn.len() >= 4 && ctx.idx % 13 == 0 {
+        report.sample(json!({"case": ctx.idx, "schema": schema_desc(&c.schema), "rows": n_total, "batches": c.batches.len(),
+            "options": c.options_desc, "reads": n_reads, "outcome": "all reads equal"}));
+    }
+    drop(reader);
+    drop(sched);
+}
+
+fn short_loc(loc: &str) -> String {
+    // "…/lance-encoding/src/foo.rs:123:9: message" -> "foo.rs:123"
+    let first = loc.split(": ").next().unwrap_or(loc);
+    let mut it = first.rsplit('/');
+    let file_line = it.next().unwrap_or(first);
+    let mut parts = file_line.split(':');
+    let f = parts.next().unwrap_or("?");
+    let l = parts.next().unwrap_or("?");
+    slug(&format!("{f}:{l}"))
+}
+
+fn slug(s: &str) -> String {
+    let mut out = String::new();
+    for ch in s.chars() {
+        if ch.is_ascii_alphanumeric() || ch == '.' || ch == ':' {
+            out.push(ch.to_ascii_lowercase());
+        } else if !out.ends_with('-') {
+            out.push('-');
+        }
+    }
+    out.trim_matches('-').to_string()
+}
+
+fn note_reject(report: &Report, stage: &str, msg: &str) {
+    // histogram of rejection reasons (digits stripped)
+    let key: String = msg.chars().filter(|c| !c.is_ascii_digit()).take(70).collect();
+    report.count(&format!("reject_reason.{stage}.{}", slug(&key)), 1);
+}
+
+pub fn run(args: &Args) -> i32 {
+    let selftest = args.extra.contains_key("selftest");
+    let report = Report::new(args, "exploration", RULE, (55, 900)).with_min_nontrivial(100);
+    report.assume("struct-level nulls are generated only for format >= 2.1 (2.0 documents that it cannot store them)");
+    report.assume("batch_size is an upper bound for batch length (documented), not an exact size");
+    std::panic::set_hook(Box::new(|info| {
+        let loc = info
+            .location()
+            .map(|l| format!("{}:{}:{}", l.file(), l.line(), l.column()))
+            .unwrap_or_default();
+        let msg = info
+            .payload()
+            .downcast_ref::<&str>()
+            .map(|s| s.to_string())
+            .or_else(|| info.payload().downcast_ref::<String>().cloned())
+            .unwrap_or_default();
+        *LAST_PANIC.lock().unwrap() = Some(format!("{loc}: {}", msg.chars().take(200).collect::<String>()));
+    }));
+    let only: Option<u64> = args.extra.get("only-case").and_then(|s| s.parse().ok());
+    let threads = if only.is_some() { 1 } else { crate::sink::verif_threads().min(14) };
+    let max_cases: u64 = args.tier.pick(100_000, 10_000_000);
+    let next = std::sync::atomic::AtomicU64::new(0);
+    std::thread::scope(|s| {
+        for _ in 0..threads {
+            s.spawn(|| {
+                let rt = tokio::runtime::Builder::new_multi_thread()
+                    .worker_threads(2)
+                    .enable_all()
+                    .build()
+                    .expect("rt");
+                loop {
+                    let idx = match only {
+                        Some(c) => {
+                            if next.fetch_add(1, std::sync::atomic::Ordering::SeqCst) > 0 {
+                                break;
+                            }
+                            c
+                        }
+                        None => next.fetch_add(1, std::sync::atomic::Ordering::SeqCst),
+                    };
+                    if idx >= max_cases || !report.time_left() {
+                        break;
+                    }
+                    let mut rng = Rng::for_case(args.seed, idx);
+                    let ctx = Ctx {
+                        report: &report,
+                        seed: args.seed,
+                        idx,
+                    };
+                    let r = std::panic::catch_unwind(AssertUnwindSafe(|| rt.block_on(run_case(&ctx, &mut rng, selftest))));
+                    if r.is_err() {
+                        let loc = LAST_PANIC.lock().unwrap().clone().unwrap_or_default();
+                        // write / open / read are guarded separately; a panic that reaches this point
+                        // comes from the generator or the oracle
+                        report.harness_error(&format!("case {idx}: panic outside the guarded Lance calls: {loc}"));
+                    }
+                }
+            });
+        }
+    });
+    if selftest {
+        let missed = report.counter("selftest_missed");
+        let flagged = report.counter("selftest_flagged");
+        println!("SELFTEST C25 flagged={flagged} missed={missed}");
+        return if missed == 0 && flagged > 0 { 0 } else { 2 };
+    }
+    report.finish()
 }
